@@ -8,6 +8,12 @@ package main
 //	pipe caps=K0,K1,K2 f=A,B g=A,B vals=.. y=Y   source -> stage f -> stage g -> sink (ranges and closes)
 //	mutex lists=1,2;3 y=Y               k workers add deltas to a shared counter under a sync.Mutex
 //	merge def=0|1 caps=KA,KB la=.. lb=.. y=Y   select over two channels (optionally with default) until both closed
+//	shsel r=R sync=bar|yield|none lists=..;.. y=Y   n goroutines execute the SAME select statement (a function
+//	                                    literal called by all of them) R times, each on its own pre-filled channel; the channel
+//	                                    operands are calls that yield or meet at a barrier between operand evaluation and select
+//	calls lists=1,2;3 y=Y               mutex counter whose workers call TOP-LEVEL functions (registry lookups at every call),
+//	                                    start nested goroutines with `go topLevelFunc(..)` and recover a panic through a deferred
+//	                                    top-level handler
 //	f20 n=N                             compile while interpreted goroutines run (child process, see below)
 //
 // (y = bit mask of the places where the program calls runtime.Gosched()).  The same Go source is
@@ -26,6 +32,7 @@ import (
 	"os/exec"
 	"path/filepath"
 	"reflect"
+	"regexp"
 	"runtime"
 	"strconv"
 	"strings"
@@ -272,15 +279,157 @@ func c10source(op string) c10prog {
 		}
 	}
 	return fmt.Sprint(acc)`, caps[0], caps[1], gs(0), c10lit(la), gs(1), c10lit(lb), bound, gs(2), def), true}
+	case "shsel":
+		lists, ok := c10lists(a["lists"])
+		r, err := strconv.Atoi(a["r"])
+		if !ok || err != nil || r < 0 || r > 16 || len(lists) == 0 {
+			return bad
+		}
+		for _, l := range lists {
+			if len(l) < r {
+				return bad // every goroutine must find r values in its own channel
+			}
+		}
+		var sync1, sync2 string
+		switch a["sync"] {
+		case "bar":
+			sync2 = "bars[round].Done(); bars[round].Wait(); "
+		case "yield":
+			sync1, sync2 = "runtime.Gosched(); ", "runtime.Gosched(); "
+		case "none":
+		default:
+			return bad
+		}
+		return c10prog{fam, fmt.Sprintf(`	lists := %s
+	n := len(lists)
+	r := %d
+	chs := make([]chan int, n)
+	for i := range chs {
+		chs[i] = make(chan int, len(lists[i])+1)
+		for _, v := range lists[i] {
+			chs[i] <- v
+		}
+	}
+	never := make(chan int)
+	bars := make([]*sync.WaitGroup, r+1)
+	for k := range bars {
+		bars[k] = new(sync.WaitGroup)
+		bars[k].Add(n)
+	}
+	first := func(id int) chan int {
+		%sreturn chs[id]
+	}
+	second := func(id int, round int) chan int {
+		%sreturn never
+	}
+	sel := func(id int, round int) int {
+		got := 0
+		select {
+		case v := <-first(id):
+			%sgot = v
+		case v := <-second(id, round):
+			got = -1000 - v
+		}
+		return got
+	}
+	res := make([][]int, n)
+	var wg sync.WaitGroup
+	for i := 0; i < n; i++ {
+		wg.Add(1)
+		go func(id int) {
+			defer wg.Done()
+			mine := []int{}
+			for k := 0; k < r; k++ {
+				%smine = append(mine, sel(id, k))
+			}
+			res[id] = mine
+		}(i)
+	}
+	wg.Wait()
+	return fmt.Sprint(res)`, c10lit2(lists), r, sync1, sync2, gs(0), gs(1)), true}
+	case "calls":
+		lists, ok := c10lists(a["lists"])
+		if !ok {
+			return bad
+		}
+		return c10prog{fam, fmt.Sprintf(`	var mu sync.Mutex
+	var wg sync.WaitGroup
+	cnt := 0
+	rec := 0
+	esc := 0
+	lists := %s
+	for i := range lists {
+		wg.Add(1)
+		go func(l []int) {
+			defer wg.Done()
+			defer func() {
+				if r := recover(); r != nil {
+					mu.Lock()
+					esc++
+					mu.Unlock()
+				}
+			}()
+			for _, d := range l {
+				%smu.Lock()
+				cnt = c10plus(cnt, d)
+				mu.Unlock()
+				if d%%2 == 0 {
+					wg.Add(1)
+					go c10leaf(&wg, &mu, &cnt, nil)
+					%s
+				}
+			}
+			if c10risky(len(l), &wg, &mu, &cnt) == "recovered" {
+				mu.Lock()
+				rec++
+				mu.Unlock()
+			}
+		}(lists[i])
+	}
+	wg.Wait()
+	return fmt.Sprint(cnt, rec, esc)`, c10lit2(lists), gs(0), strings.TrimSuffix(gs(1), " ")), true}
 	}
 	return bad
 }
+
+// top-level functions used by family "calls" (declared once in the interpreter, repeated in every compiled snippet)
+const c10prelude = `func c10plus(a, b int) int { return a + b }
+func c10leaf(wg *sync.WaitGroup, mu *sync.Mutex, cnt *int, started chan bool) {
+	defer wg.Done()
+	if started != nil {
+		started <- true
+	}
+	mu.Lock()
+	*cnt = c10plus(*cnt, 1)
+	mu.Unlock()
+}
+func c10handler(out *string) {
+	if r := recover(); r != nil {
+		*out = "recovered"
+	}
+}
+// a deferred top-level handler, then a nested go statement whose goroutine has certainly started, then the panic
+func c10risky(k int, wg *sync.WaitGroup, mu *sync.Mutex, cnt *int) (res string) {
+	defer c10handler(&res)
+	started := make(chan bool)
+	wg.Add(1)
+	go c10leaf(wg, mu, cnt, started)
+	<-started
+	if k%2 == 1 {
+		panic(k)
+	}
+	return "ok"
+}
+`
 
 func c10interp() *fast.Interp {
 	if c10ir == nil {
 		c10ir = newQuietInterp()
 		if _, e := evalSrc(c10ir, `import ("fmt"; "sync"; "runtime")`); e != "" {
 			panic("C10: cannot import: " + e)
+		}
+		if _, e := evalSrc(c10ir, c10prelude); e != "" {
+			panic("C10: prelude: " + e)
 		}
 	}
 	return c10ir
@@ -320,7 +469,7 @@ func c10prepare(ops []string) {
 			continue
 		}
 		snips = append(snips, Snippet{Imports: []string{"sync", "runtime"},
-			Decls: "var _ sync.Mutex\nvar _ = runtime.Gosched\n\nfunc prog() string {\n" + p.src + "\n}\n",
+			Decls: "var _ sync.Mutex\nvar _ = runtime.Gosched\n\n" + c10prelude + "\nfunc prog() string {\n" + p.src + "\n}\n",
 			Body:  "\temit(prog())"})
 		idx = append(idx, op)
 	}
@@ -352,13 +501,14 @@ func c10newRaces() string {
 	return s
 }
 
-// c10raceKey: first gomacro frame of each of the two stacks of the first report
-func c10raceKey(rep string) string {
+// c10raceFrames: the first gomacro frame of each of the two access stacks of ONE race report
+func c10raceFrames(rep string) []string {
 	var fr []string
 	inStack := false
 	for _, l := range strings.Split(rep, "\n") {
 		t := strings.TrimSpace(l)
-		if strings.HasPrefix(t, "Write at") || strings.HasPrefix(t, "Read at") || strings.HasPrefix(t, "Previous write at") || strings.HasPrefix(t, "Previous read at") {
+		if strings.HasPrefix(t, "Write at") || strings.HasPrefix(t, "Read at") || strings.HasPrefix(t, "Previous write at") || strings.HasPrefix(t, "Previous read at") ||
+			strings.HasPrefix(t, "Atomic write at") || strings.HasPrefix(t, "Previous atomic write at") || strings.HasPrefix(t, "Atomic read at") || strings.HasPrefix(t, "Previous atomic read at") {
 			inStack = true
 			continue
 		}
@@ -367,21 +517,88 @@ func c10raceKey(rep string) string {
 			continue
 		}
 		if inStack && strings.Contains(t, "github.com/cosmos72/gomacro/") && !strings.HasPrefix(t, "/") {
-			f := strings.TrimPrefix(t, "github.com/cosmos72/gomacro/")
-			if i := strings.Index(f, "("); i > 0 && !strings.HasPrefix(f, "(") {
-				f = f[:i]
-			}
-			fr = append(fr, f)
+			fr = append(fr, strings.TrimSuffix(strings.TrimPrefix(t, "github.com/cosmos72/gomacro/"), "()"))
 			inStack = false
 			if len(fr) == 2 {
 				break
 			}
 		}
 	}
+	return fr
+}
+
+// c10raceSplit cuts the text of a race log into single reports
+func c10raceSplit(txt string) []string {
+	var out []string
+	for _, part := range strings.Split(txt, "==================") {
+		if strings.Contains(part, "DATA RACE") {
+			out = append(out, part)
+		}
+	}
+	return out
+}
+
+var (
+	c10reCallCache = regexp.MustCompile(`^fast\.\(\*Comp\)\.call\w*\.func[\d.]+$`)
+	c10reAddress   = regexp.MustCompile(`^fast\.\(\*Var\)\.Address\.func[\d.]+$`)
+)
+
+// c10raceKeyOf: key of ONE report.  Races whose both accesses are inside one of two families of generated closures get a
+// stable name (the closure numbers differ per arity / kind):
+//
+//	race-call-cache            fast/call*ret*.go: the compiled call statement caches the callee (cachedfunv, cachedfun) in
+//	                           variables shared by every goroutine executing that statement
+//	race-intaddresstaken-flag  fast/address.go: &x of an integer variable of an outer frame sets env.IntAddressTaken = true
+//
+// and the unsynchronised type universe (F20) keeps its own key; everything else is race:<frame>|<frame>.
+func c10raceKeyOf(rep string) string {
+	fr := c10raceFrames(rep)
 	if len(fr) == 0 {
 		return "race-outside-interpreter"
 	}
-	return "race:" + strings.Join(fr, "|")
+	all := func(re *regexp.Regexp) bool {
+		for _, f := range fr {
+			if !re.MatchString(f) {
+				return false
+			}
+		}
+		return true
+	}
+	key := "race:" + strings.Join(fr, "|")
+	switch {
+	case all(c10reCallCache):
+		return "race-call-cache"
+	case all(c10reAddress):
+		return "race-intaddresstaken-flag"
+	case strings.Contains(key, "typeutil") || strings.Contains(key, "xreflect.(*Universe)"):
+		return "compile-while-running-universe-race"
+	}
+	return key
+}
+
+// c10raceKey: key of a batch of reports: an unnamed race (race:...) wins over the named families, so that a recorded
+// finding cannot hide another race reported during the same program
+func c10raceKey(txt string) string {
+	k, _ := c10racePick(txt, nil)
+	return k
+}
+
+// c10racePick returns the key and the text of the report chosen by c10raceKey among those accepted by keep
+func c10racePick(txt string, keep func(frames []string) bool) (string, string) {
+	first, firstRep := "", ""
+	for _, rep := range c10raceSplit(txt) {
+		if keep != nil && !keep(c10raceFrames(rep)) {
+			continue
+		}
+		k := c10raceKeyOf(rep)
+		if strings.HasPrefix(k, "race:") {
+			return k, rep
+		}
+		if first == "" {
+			first, firstRep = k, rep
+		}
+	}
+	return first, firstRep
 }
 
 func c10exec(op string) Result {
@@ -422,7 +639,11 @@ func c10exec(op string) Result {
 	var outs []string
 	for _, procs := range []int{1, 2, 16} {
 		runtime.GOMAXPROCS(procs)
-		outs = append(outs, c10call(fn))
+		o := c10call(fn)
+		outs = append(outs, o)
+		if o == "TIMEOUT" {
+			break // the goroutines of a program that hangs stay blocked: do not start more of them
+		}
 	}
 	runtime.GOMAXPROCS(old)
 	res.Out = "ok " + outs[0]
@@ -456,14 +677,12 @@ func c10exec(op string) Result {
 		return res
 	}
 	if rep := c10newRaces(); rep != "" {
-		res.Viol = "data race reported while a race-free program ran:\n" + truncate(rep, 3000)
-		res.Key = c10raceKey(rep)
-		if strings.Contains(res.Key, "typeutil") || strings.Contains(res.Key, "xreflect.(*Universe)") {
-			// the unsynchronised Universe again (F20): a goroutine of an earlier program is still running
-			// (or starts late) while the next program is being compiled
-			res.Key = "compile-while-running-universe-race"
+		key, one := c10racePick(rep, nil)
+		if key != "" {
+			res.Viol = "data race reported while a race-free program ran:\n" + truncate(one, 3000)
+			res.Key = key
+			res.Tags = append(res.Tags, "race-report")
 		}
-		res.Tags = append(res.Tags, "race-report")
 	}
 	return res
 }
@@ -566,6 +785,14 @@ func c10gen(r *rand.Rand, tier string, emit func(string)) {
 			}
 		}
 	}
+	for _, sy := range []string{"bar", "yield", "none"} {
+		emit("shsel r=1 sync=" + sy + " lists=1,2;10,20 y=0")
+		emit("shsel r=2 sync=" + sy + " lists=1,2,3,4,5,6;10,20,30,40,50,60;100,200,300,400,500,600 y=0")
+		emit("shsel r=3 sync=" + sy + " lists=1,2,3,4,5,6,7,8,9,10,11,12;-1,-2,-3,-4,-5,-6,-7,-8,-9,-10,-11,-12;21,22,23,24,25,26,27,28,29,30,31,32;41,42,43,44,45,46,47,48,49,50,51,52 y=3")
+	}
+	emit("calls lists=1;2 y=0")
+	emit("calls lists=2,4,6;1,3;8 y=0")
+	emit("calls lists=2,2,2,2;4,4,4;6,6,6,6,6;1 y=3")
 	emit("pipe caps=0,0,0 f=1,0 g=1,0 vals= y=0")
 	emit("fanin cap=0 lists= y=0")
 	emit("merge def=0 caps=0,0 la= lb= y=0")
@@ -575,7 +802,22 @@ func c10gen(r *rand.Rand, tier string, emit func(string)) {
 	}
 	for i := 0; i < n; i++ {
 		y := r.Intn(16)
-		switch r.Intn(4) {
+		switch r.Intn(6) {
+		case 4:
+			// n goroutines, r rounds, every channel holds n*r+extra values (so that a run in which the goroutines
+			// steal from each other's channels still terminates and shows a wrong result instead of hanging)
+			n, rounds := 2+r.Intn(3), 1+r.Intn(3)
+			var ls []string
+			for i := 0; i < n; i++ {
+				var vs []string
+				for j := 0; j < n*rounds+r.Intn(3); j++ {
+					vs = append(vs, strconv.Itoa(100*(i+1)+j))
+				}
+				ls = append(ls, strings.Join(vs, ","))
+			}
+			emit(fmt.Sprintf("shsel r=%d sync=%s lists=%s y=%d", rounds, []string{"bar", "bar", "yield", "none"}[r.Intn(4)], strings.Join(ls, ";"), y%4))
+		case 5:
+			emit(fmt.Sprintf("calls lists=%s y=%d", c10rlists(r, 5, 6), y%4))
 		case 0:
 			emit(fmt.Sprintf("fanin cap=%d lists=%s y=%d", caps[r.Intn(len(caps))], c10rlists(r, 5, 6), y))
 		case 1:
@@ -591,6 +833,8 @@ func c10gen(r *rand.Rand, tier string, emit func(string)) {
 	emit("fanin cap=x lists=1 y=0")
 	emit("pipe caps=1,2 f=1,1 g=1,1 vals=1 y=0")
 	emit("merge def=2 caps=1,1 la=1 lb=2 y=0")
+	emit("shsel r=3 sync=bar lists=1,2;3,4,5 y=0")
+	emit("shsel r=1 sync=maybe lists=1;2 y=0")
 	emit("bogus a=1")
 	// the REPL scenario of finding F20
 	emit("f20 n=60")
@@ -599,7 +843,8 @@ func c10gen(r *rand.Rand, tier string, emit func(string)) {
 func init() {
 	register(&Prop{
 		ID: "C10",
-		Rule: "race-free concurrent programs of four families (fan-in with sum, 2-stage pipeline, mutex counter, select merge with/without default): " +
+		Rule: "race-free concurrent programs of six families (fan-in with sum, 2-stage pipeline, mutex counter, select merge with/without default, " +
+			"n goroutines in the same select statement with synchronising operands, mutex counter through top-level functions with nested go statements and a deferred top-level recover handler): " +
 			"bounded-exhaustive over capacities {0,1,2} with fixed data, then random capacities/data/yield points; each run 3x by the interpreter " +
 			"(GOMAXPROCS 1,2,16), once by compiled Go, and by the Lean model under 3 schedules; non-trivial = every well-formed program",
 		Gen:        c10gen,
